@@ -33,7 +33,7 @@ ANCHOR_FILES = ("_core", "_actions", "_typehints", "_common", "_link_arguments",
 NO_SHRINK = ("parsers/*/opts", "parsers/*/opts/*", "world", "pristine")
 SHRINK_DICTS = ("world/files", "world/env")
 
-FEATURES = ["l", "uif", "dd", "hd", "base", "bdef", "ilink", "model", "fn", "probe", "cfg", "sub", "dcf", "env", "lst"]
+FEATURES = ["l", "uif", "dd", "hd", "base", "bdef", "ilink", "nlink", "model", "fn", "probe", "cfg", "sub", "dcf", "env", "lst"]
 
 
 def parser_spec(feats, eoe):
@@ -64,6 +64,12 @@ def parser_spec(feats, eoe):
         args.append({"k": "arg", "name": "src", "type": "base", "default": {"__lazy__": "Sub1", "kw": {"n": 4}}})
         args.append({"k": "class", "cls": "Model", "name": "m2"})
         args.append({"k": "link", "src": "src", "dst": "m2.width", "fn": "base_n", "on": "instantiate"})
+    if "nlink" in feats:
+        # a parse-time link without compute_fn whose source is a whole group and whose target is an init arg of a
+        # subclass argument: dict or group, depending on the class chosen in THIS call
+        args.append({"k": "class", "cls": "DI", "name": "st"})
+        args.append({"k": "subclass", "cls": "LBase", "name": "nb", "required": False})
+        args.append({"k": "link", "src": "st", "dst": "nb.init_args.opts"})
     if "model" in feats:
         args.append({"k": "class", "cls": "Model", "name": "model"})
         args.append({"k": "link", "src": "a", "dst": "model.width", "fn": "double"})
@@ -99,6 +105,7 @@ ARGV = {
         ["--base=dsim.simtypes.BadDefault", "--base.n=1"],
     ],
     "bdef": [["--bdef=Base"], ["--bdef.n=7"], ["--bdef=dsim.simtypes.Sub2", "--bdef.k=1"], ["--bdef.opts.a=3"], ["--bdef=null"]],
+    "nlink": [["--nb=TakesDI"], ["--nb=TakesDict"], ["--nb=dsim.simtypes.TakesDict", "--st.lr=5"], ["--st.steps=4", "--nb=dsim.simtypes.TakesDI"], ["--st.lr=x", "--nb=TakesDI"], ["--nb=TakesDict", "--unknown=1"]],
     "ilink": [["--src=Base"], ["--src.n=6"], ["--m2.name=k"], ["--src=Sub1", "--src.child=Base"], ["--m2.width=3"], ["--src=dsim.simtypes.Sub2"]],
     "fn": [["--fn=Sub1"], ["--fn.help=Sub1"], ["--fn.help=Base"], ["--fn.help"], ["--fn=Base", "--fn.tags=[2]"]],
     "probe": [["--probe=p:x"], ["--probe=bad"]],
@@ -137,6 +144,7 @@ OBJ = {
     "base": [{"base": {"class_path": "dsim.simtypes.BadDefault"}}, {"base": {"class_path": "dsim.simtypes.Sub1"}}, {"base": {"class_path": "dsim.simtypes.Sub1", "init_args": {"child": {"class_path": "Base"}}}}, {"base": {"class_path": "os.path"}}],
     "bdef": [{"bdef": {"class_path": "dsim.simtypes.Base"}}, {"bdef": {"init_args": {"n": 9}}}, {"bdef": {"class_path": "dsim.simtypes.Sub2", "init_args": {"k": 3}}}, {"bdef": "Base"}],
     "ilink": [{"src": {"class_path": "dsim.simtypes.Base", "init_args": {"n": 2}}}, {"m2": {"name": "o"}}],
+    "nlink": [{"nb": {"class_path": "dsim.simtypes.TakesDict"}}, {"st": {"lr": 7}, "nb": {"class_path": "dsim.simtypes.TakesDI"}}, {"st": {"lr": 3}, "nb": {"class_path": "dsim.simtypes.TakesDict"}}, {"st": {"steps": "x"}, "nb": {"class_path": "dsim.simtypes.TakesDI"}}],
     "probe": [{"probe": "p:y"}, {"probe": 3}],
     "model": [{"model": {"name": "z"}}, {"model": {"base": {"class_path": "Sub2"}}}],
     "sub": [{"fit": {"lr": 0.2}}, {"fit": {"lr": 0.2}, "test": {"name": "n"}}, {"subcommand": "test", "test": {"name": "q"}}],
